@@ -106,6 +106,11 @@ type world struct {
 	gate *authsim.Gate
 	// spoof-burst kinds: the ladder of questions and their bursts
 	bursts []burstQ
+	// ladder kinds (ladders.go): the rungs of the case
+	ladder []*rung
+	// the honest root / test. servers: never tampered with; the spoof-question-
+	// relative kind sends forged datagrams AHEAD of their unchanged replies
+	rootSrv, tldSrv *authsim.Server
 
 	sentMu sync.Mutex
 	sent   []string // summaries of the first scripted (attack) messages the evil servers built
@@ -194,6 +199,7 @@ func buildWorld(spec WorldSpec) *world {
 	if spec.TwoEvil {
 		w.evils = append(w.evils, u.AddServer("evil2", addrEvilB4, addrEvilB6))
 	}
+	w.rootSrv, w.tldSrv = sr, st
 	upper := spec.Mode != "off"
 	leaf := spec.Mode == "signed"
 	w.root = u.AddZone(zm.Spec{Apex: zRoot, Signed: upper}, sr)
@@ -246,6 +252,7 @@ func buildWorld(spec WorldSpec) *world {
 	w.evil.AddMarked("host.sub.evil.test.", dns.TypeA, 60)
 	w.evil.AddMarked("host.sub.evil.test.", dns.TypeAAAA, 60)
 	addBurstData(w.evil)
+	addLadderData(w.evil)
 	w.evil.AddAddr(evilNS, net.ParseIP(addrEvil4), 60)
 	w.evil.AddAddr(evilNS, net.ParseIP(addrEvil6), 60)
 
@@ -431,6 +438,12 @@ func (w *world) clearScripts() {
 	}
 	if w.gate != nil {
 		w.gate.Release()
+	}
+	for _, s := range []*authsim.Server{w.rootSrv, w.tldSrv} {
+		// honest servers: only ever had forged datagrams sent ahead of their replies
+		if s != nil {
+			s.ClearScript(false)
+		}
 	}
 	if w.corpSrv != nil {
 		// the honest server is only ever GATED (a delay at the socket), never tampered with
